@@ -24,6 +24,18 @@ CLAIMED = {
             "Exploration: return values of every gate function, compute_current, synaptic update and the parameter/state tables are compared with a 50-digit mpmath oracle written from HH 1952 / Pospischil 2008 / Abbott-Marder 1998 on singular, near-singular, clipped and generic voltages; renamed instances must be bit-identical with keys re-prefixed for random prefix chains.",
             "Trusts the transcription R2 (HH part cross-checked against NEURON 9 compiled hh mechanism in setup.sh; Pospischil/Abbott-Marder part from the papers only). Known finding F12 (CaT tau_u above -20 mV) is reported as KNOWN-FINDING.",
             "DESIGN.md section 4 C04"),
+    "C10": ("reference-model monitor (R4 scatter with unique-value tagging) over get_all_parameters/get_all_states/write_trainables + three-route differential simulation",
+            "Exploration: after sequences of make_trainable calls on views reached by random selection chains (views that exclude the module's last row, shared parameters over groups of unequal size, node keys, edge keys, initial states) the parameter and state arrays actually used for simulation must equal the reference scatter computed from the independent view model, every unselected row keeping its uniquely tagged table value; write_trainables must store exactly those arrays; set / data_set / make_trainable+params must give identical arrays and simulations.",
+            "Trusts the sharing rule stated in DESIGN.md (last selection step decides the grouping) and R4.",
+            "DESIGN.md section 4 C10"),
+    "C11": ("reference-model monitor (pure-python view model R4) after every step of random selection chains + invariant at a hook (base-table diff after each mutator through a view)",
+            "Exploration: random chains (depth <=4) over cell/branch/comp/loc/edge/select/group/channel/synapse-name with all index forms and scope switches on irregular networks, cells and branches; after every step node/edge label sets and local index columns are compared with R4; lazy [] indexing and iteration against the method form; a mutator (set, insert, record, stimulate, clamp, add_to_group, move, edge set) is applied through the final view and every base table must be unchanged outside (selected rows x touched columns).",
+            "Negative slice bounds and boolean masks on views whose index values are not 0..n-1 are outside the checked domain; known finding F20 reported as KNOWN-FINDING.",
+            "DESIGN.md section 4 C11"),
+    "C15": ("analytic-oracle monitor on refinement ladders (cable theory closed forms; exact eigenmodes of the semi-discrete cable)",
+            "Exploration: observed convergence orders on finite ladders (ncomp 4..64, dt0/2^k) against sealed-cable steady state (one branch, two branches with equal and unequal compartment lengths), exact eigenmode relaxation and RC relaxation, for all schemes and backends, with an absolute error bound at the finest level that fixes the units.",
+            "Bounded restatement of 'converges in the limit': order windows on a finite ladder.",
+            "DESIGN.md section 4 C15"),
     "C14": ("fixed-point and reference-model monitors on .nodes after init_states()",
             "Exploration: after init_states() on randomly built modules with partial, renamed and multiple channel insertions and per-compartment voltages (incl. singular ones) and parameters, every gate must be a fixed point of the channel's own update for dt in {0.025,1,1000}, equal R2's steady state, and nothing outside (channel rows x gate columns) may change.",
             "Trusts R2 steady states and the channel's own update_states as the definition of 'fixed point'.",
